@@ -413,7 +413,8 @@ def BASE(value, base, places=DEFAULT):
         places = utils.parse_integer(places)
         if isinstance(places, error.XLError):
             return places
-        if places < 0:
+        if places < 0 or places > 255:
+            # Excel's limit; padding to a billion places would never end
             return error.NUM
     if not 2 <= base <= 36 or value < 0:
         return error.NUM
